@@ -87,7 +87,7 @@ def main():
                 rec['repo_tests'] = {'passed': passed, 'failed': failed, 'compiles': 'error' not in r.stdout}
             for cid in m.get('run', m.get('expect', [])):
                 t0 = time.time()
-                env = dict(os.environ, VERIF_OUT=OUT)
+                env = dict(os.environ, VERIF_OUT=OUT, VERIF_NO_REGRESSIONS='1')
                 r = scratch_check(cid, tier, env) if scratch else subprocess.run([f'{VERIF}/check', cid, tier], capture_output=True, text=True, env=env)
                 sig = [l.strip() for l in r.stdout.splitlines() if l.strip().startswith('signature:')]
                 rec['checks'][cid] = {'exit': r.returncode, 'wall_s': round(time.time() - t0, 1), 'signature': sig[:1], 'tier': tier}
